@@ -130,11 +130,14 @@ CLAIMED = {
              "never frees or writes through user keys/values. " + DECIDES % "C14",
         technique="abstract interpretation of node/pair identity (term flow with widened descent and predecessor loops) with exit obligations on notifier arguments"),
     "C15": dict(
-        text="Rules C15.1-C15.4 on phashtable.c / plist.c: no key-dependent arithmetic in a signed type in the bucket function; every bucket "
+        text="Rules C15.1-C15.5 on phashtable.c / plist.c: no key-dependent arithmetic in a signed type in the bucket function; every bucket "
              "subscript is bounded by table->size (loop counter or bucket function modulo table->size), size equals the allocated slot count; "
              "keys compared by identity, insert allocates only after an unsuccessful search, remove unlinks the identical node before freeing "
-             "it and stops, not-found marker (ppointer)-1, listing functions walk every chain to its end; no use after release. " + DECIDES % "C15",
-        technique="typed-AST signedness rule, index provenance, loop-exit analysis of chain walks, path-sensitive use-after-release typestate"),
+             "it and stops, not-found marker (ppointer)-1, listing functions walk every chain to its end; no use after release; C15.5 (shape analysis with summarised list segments and symbolic "
+             "sequence contents, analysed to a fixpoint, lists of every length): p_list_append / prepend / remove / reverse / last / foreach / free return or "
+             "leave exactly the sequence the corresponding sequence operation gives, never follow a released item's link, never dereference NULL; the length "
+             "counter is 1 + one per link followed. " + DECIDES % "C15",
+        technique="typed-AST signedness rule, index provenance, loop-exit analysis of chain walks, path-sensitive use-after-release typestate, list-segment shape analysis with sequence-content tracking (fold/materialise to a fixpoint)"),
     "C16": dict(
         text="Rules C16.1-C16.6 on pinifile.c: every unbounded %[ conversion and strcpy in the parse loop fits its destination "
              "array given the fgets bound; parameter objects come only from those arrays, which bounds the list getter's buffer; sections "
